@@ -11,7 +11,7 @@ META = {
                   "the specified contributing properties, ordinary and falsy values, with/without non-contributing properties, with canonicalize "
                   "replaced by a recorder (the hashed dictionary must be exactly the specified one); real constructors/parse/round trip on 15 "
                   "cases against an independent canonicalizer + uuid5; _make_json_serializable on symbolic leaves. Canonical bytes are C16's obligations.",
-    "level_text_more": 'Also: Custom observables whose contributors include a defaulted own property and common SCO properties (extensions, defanged); values arriving as keyword arguments, through custom_properties, as a bundle member dictionary.',
+    "level_text_more": 'Also: Custom observables whose contributors include a defaulted own property and common SCO properties (extensions, defanged); values arriving as keyword arguments, through custom_properties, as a bundle member dictionary. Rounds 5-6: contributing timestamps across precisions and construction orders; distinct contributing texts (unpaired surrogates, U+FFFD, escaped spellings) get distinct ids.',
     "level_note": "Frozen copy of the per-type contributing lists (props/h_C06.py, from the specification text; 'languages' for software follows the "
                   "pinned tree, see DESIGN.md). uuid5/SHA-1 trusted. Presence vectors are selector-enumerated (E1s); value universes are small tables.",
     "technique": "CrossHair symbolic/enumerated execution of the real id-generation functions with a recorder stub for canonicalize; "
